@@ -9,36 +9,46 @@ META = {
     "level": "proof",
     "engine": "qsym-translator",
     "technique": "Coq reflection (exact Laurent-polynomial matrices, vm_compute + meqb soundness): every entry of the repo's "
-                 "OPENQASM_GATES table, extracted symbolically from /repo, equals (up to a recorded unit-monomial global phase) a "
-                 "hand-written table of the qelib1.inc gates, which is itself proved equal to the product of each gate's qelib1.inc body "
-                 "over U and CX; plus an independent OpenQASM-2 interpreter in the harness run on to_openqasm output, and an independent "
-                 "OpenQASM-3 evaluator for from_qasm3",
+                 "OPENQASM_GATES table, extracted symbolically from /repo, equals up to a unit-monomial global phase a hand-written "
+                 "table of the qelib1.inc gates, itself proved equal to the product of each gate's qelib1.inc body over U and CX; plus an "
+                 "independent OpenQASM-2 interpreter (harness) run on to_openqasm output and an independent OpenQASM-3 evaluator for "
+                 "from_qasm3 (numeric comparison of unitaries, exact comparison of register maps and printed decimals)",
     "design_ref": "DESIGN.md §3 C67",
-    "text": "Part A (proof, for all real angles): coq/Tab/QasmTable.v holds the qelib1.inc gates (u3,u2,u1,cx,id,x,y,z,h,s,sdg,t,tdg,rx,ry,rz,"
-            "cz,cy,swap,ch,ccx,cswap,crx,cry,crz,cu1,cp,cu3,rxx,rzz,sx,sxdg + OpenQASM-3 gphase) as matrices over the symbols of Tab/TrigSyms.v, "
-            "written by hand from the spec; coq/Disc/QasmProofs.v proves (qelib_bodies_ok) that every such matrix is exactly the product of the "
-            "gate's qelib1.inc body expanded down to the built-ins U and CX, and program_denotation_compositional for the QASM-2 AST. On every "
-            "run each (PennyLane name -> QASM name) pair of the repo's OPENQASM_GATES is re-extracted (symbolic execution of compute_matrix on "
-            "formal angles) and Coq proves M_pennylane = phase * qelib(name) with the SAME argument order, phase a unit monomial recorded in "
-            "export_phase_doc (RZ->rz: e^{-i theta/2} because qelib1 rz = u1; GlobalPhase->gphase: e^{-2 i phi}, i.e. the sign convention is "
-            "opposite to OpenQASM 3's gphase), and that arities agree. Part B (tie, every run): random circuits over all table gates and "
-            "decomposable extras, random int/str wire labels, exact-friendly and generic angles -> to_openqasm (measure_all, rotations, "
-            "precision, wires options) -> parsed by an independent recursive-descent OpenQASM-2 parser and interpreted with qelib1.inc "
-            "written as gate definitions over U/CX only -> unitary compared with qp.matrix of the tape up to global phase, measured-register "
-            "map compared with the expected (qubit i <-> wire i, creg bit k <-> k-th measured wire), diagonalising rotations checked to map each "
-            "observable to the computational Z word, printed decimals checked to be the correctly rounded p-significant-digit value. "
-            "from_qasm3: generated OpenQASM-3 programs (registers, variables/constants/arithmetic, all table gates, inv/pow/ctrl/negctrl, "
-            "gphase, custom gates, for/if) evaluated by an independent evaluator following the OpenQASM-3 spec and compared as unitaries.",
-    "note": "Trusted: Coq kernel; translator qsym/qx (spot-checked); my transcription of qelib1.inc / stdgates.inc from memory of the spec "
-            "(twice: as Coq bodies+matrices and as OpenQASM text interpreted by the harness parser; cross-checked against each other numerically "
-            "every run); numeric (float, tolerance) comparison in Part B. Not covered: mid-circuit measurement / Conditional export "
-            "('if(mcms[k]==1)' is not OpenQASM-2 syntax), QNode input, from_qasm (qiskit plugin), OpenQASM-3 subroutines/while/arrays/"
-            "classical bits, ctrl(n) with n>1 and ctrl on custom gates (rejected by the importer), ctrl @ u2/u3 (global-phase convention "
-            "differs between spec versions). 'precision' is checked as SIGNIFICANT digits (what the code does); the docstring says decimal digits.",
-    "assumptions": ["OpenQASM 2 semantics = U/CX of the OpenQASM 2 paper + qelib1.inc as transcribed in coq/Tab/QasmTable.v and in QELIB1 below",
-                    "OpenQASM 3: ranges [a:b] are inclusive, gphase(g) multiplies by e^{+ig}, ctrl @ gphase(g) = p(g)"],
-    "trusted": ["coq/Tab/QasmTable.v (qelib1.inc, hand-written)", "translator harness/qsym.py, qx.py",
-                "independent OpenQASM interpreter inside harness/props/c67.py (float arithmetic)"],
+    "text": "Part A (proof, for all real angles): coq/Tab/QasmTable.v holds the qelib1.inc gates (U, CX, u3,u2,u1,p,cx,id,x,y,z,h,s,sdg,t,tdg,"
+            "rx,ry,rz,sx,sxdg,cz,cy,swap,ch,ccx,cswap,crx,cry,crz,cu1,cp,cu3,rxx,rzz, and OpenQASM-3 gphase) as matrices over the symbols of "
+            "Tab/TrigSyms.v, written by hand from the spec with the global phase the definitions imply (rz = u1, ch = e^{i pi/4} CH, "
+            "rxx = e^{-i theta/2} RXX); coq/Disc/QasmModel.v transcribes the 34 gate BODIES of qelib1.inc and Props/C67.v proves "
+            "qelib_bodies_ok / qelib_body_sound (every body, expanded over earlier gates down to U and CX with half/quarter-angle "
+            "substitution, acts like the table's matrix, for every real parameter), program_denotation_compositional, "
+            "measured_register_compositional, program_sequence_denotation for the QASM-2 AST, phase_is_unit and export_equiv_means. On every "
+            "run each pair K->g of the repo's OPENQASM_GATES is re-extracted (compute_matrix of K run on formal angles) and Coq proves "
+            "export_equiv: M_K = phase * qelib(g) with the SAME argument order, the phase being the one documented in export_phase_table "
+            "(RZ->rz: e^{-i theta/2}; GlobalPhase->gphase: e^{-2 i phi}, i.e. PennyLane's sign convention is opposite to gphase's) or 1 / "
+            "e^{-+i theta_0/2}; plus arity agreement. Part B (tie, every run): random circuits over all table gates and 13 decomposable "
+            "extras, 1-5 wires with random int/str labels, angles (pi/4 multiples, pythagorean, tiny/huge, uniform) -> to_openqasm with "
+            "random measure_all/rotations/precision/wires options -> parsed by an independent recursive-descent OpenQASM-2 parser and "
+            "interpreted with qelib1.inc written as OpenQASM gate definitions over U/CX only (cross-checked against the openqasm3 "
+            "package's parser on a sample, and against textbook matrices) -> unitary vs qp.matrix of the tape up to global phase "
+            "(1e-9, or the sum of the rounding errors of the printed literals at precision p), qreg/creg sizes and the measured-register "
+            "map (qubit i <-> wire i of `wires`/tape.wires, c-bit k <-> k-th measured wire), diagonalising rotations map every observable "
+            "to the computational Z word and touch no other wire, every printed literal is the correctly rounded p-significant-digit "
+            "decimal. from_qasm3: generated OpenQASM-3 programs (registers and single qubits, float/int/const variables, arithmetic, pi, "
+            "all 31 mapped gates, inv/pow/ctrl/negctrl modifier stacks, gphase and ctrl@gphase, custom gates, for over ranges/sets, if/else) "
+            "evaluated by an independent evaluator following the OpenQASM-3 spec/stdgates.inc and compared as unitaries up to global phase.",
+    "note": "Trusted: Coq kernel + stdlib real axioms; translator qsym/qx (spot-checked); U, CX and the qelib1.inc bodies as transcribed "
+            "from memory of the spec (twice, independently: Coq bodies and OpenQASM text for the harness interpreter); Part B is a numeric "
+            "(float, tolerance) comparison, the reference unitary of the circuit is qp.matrix (tied to the documentation by C02). "
+            "The check reports, on the unchanged tree, seven deviation classes under stable keys (export:gphase_not_openqasm2, "
+            "export:custom_wires_measure, import:loop_range, import:loop_range_step, import:ctrl_gphase, import:custom_gate_indexed, "
+            "import:custom_gate_inv); everything else passes. Not covered: mid-circuit measurement / Conditional export "
+            "('if(mcms[k]==1)' is not OpenQASM-2 syntax either), QNode input, from_qasm (qiskit plugin), OpenQASM-3 subroutines/while/"
+            "arrays/classical bits/include (include is rejected by the importer), builtin U, ctrl(n) and ctrl on custom gates (rejected by "
+            "the importer), ctrl @ u2/u3/cu (global-phase convention of stdgates.inc), fractional pow. 'precision' is checked as "
+            "SIGNIFICANT digits (what the code does); the docstring says decimal digits.",
+    "assumptions": ["OpenQASM 2 semantics = U/CX of the OpenQASM 2 paper + qelib1.inc as transcribed in coq/Disc/QasmModel.v (bodies) and in QELIB1 (harness)",
+                    "OpenQASM 3: ranges [a:b] and [a:s:b] are inclusive, gphase(g) multiplies by e^{+ig}, ctrl @ gphase(g) = p(g), modifiers apply to custom gates"],
+    "trusted": ["coq/Tab/QasmTable.v + bodies in coq/Disc/QasmModel.v (qelib1.inc, hand-written)", "translator harness/qsym.py, qx.py",
+                "independent OpenQASM interpreter/evaluator inside harness/props/c67.py (float arithmetic)"],
 }
 HEADER = """From Coq Require Import List ZArith QArith Bool String.
 From PLV Require Import Alg.Poly Lin.Vec Lin.PVec Tab.TrigSyms Tab.GateTable Tab.QasmTable.
@@ -952,7 +962,7 @@ def run(ctx):
     if bad_lib:
         raise RuntimeError(f"harness self-test: qelib1 transcription disagrees with textbook matrices for {bad_lib}")
     # ---------------- cases
-    n_exp, n_imp = (220, 120) if quick else (2500, 1200)
+    n_exp, n_imp = (200, 108) if quick else (1500, 600)
     corpus = [
         {"ops": [["RX", [1.2], [0]], ["CNOT", [], [0, 1]], ["RZ", [0.9], [1]]], "meas": [["sample", [0, 1]]],
          "opts": {"measure_all": True, "rotations": True, "precision": None, "wires": None}, "tape_wires": [0, 1]},
@@ -975,7 +985,7 @@ def run(ctx):
                                        "import": [{"text": c["text"], "order": c["order"]} for c in imp_cases]}, timeout=1800)
     # ---------------- Part A: table obligations
     obl = json.loads((ctx.gen_dir / "obligations.json").read_text())
-    failed = ctx.coq_obligations("table", HEADER, [(o["name"], o["stmt"], "vm_compute. reflexivity.") for o in obl], chunk=50)
+    failed = ctx.coq_obligations("table", HEADER, [(o["name"], o["stmt"], "vm_compute. reflexivity.") for o in obl], chunk=28)
     by = {o["name"]: o for o in obl}
     for name, detail in failed:
         o = by.get(name)
@@ -993,11 +1003,10 @@ def run(ctx):
         if it["status"] != "ok":
             ctx.violation(f"tie:{it['key']}", {"gate": it["key"], "detail": it["detail"], "no_longer_checks": "symbolic extraction of this table entry"},
                           found_input=False, what=f"matrix of {it['key']} can no longer be extracted ({it['status']}: {it['detail'][:80]})")
-    # the harness' own OpenQASM-text transcription of qelib1.inc agrees with the Coq table numerically (two transcriptions, one meaning)
     ctx.coverage["table_entries"] = len(out["table"])
     # ---------------- Part B: export
     hist = {"native_ops": 0, "extra_ops": 0, "custom_wires": 0, "precision": 0, "measure_all": 0, "rotations_with_obs": 0, "str_labels": 0,
-            "gphase_programs": 0, "errors": 0, "lines": 0, "literals": 0}
+            "gphase_programs": 0, "errors": 0, "lines": 0}
     nontriv = set()
     xchk = 0
     native_names = {g[0] for g in NATIVE}
